@@ -1,7 +1,8 @@
 //! Independent reference implementations written from the published constructions:
 //! gear-hash content-defined chunking, keyed-BLAKE3 leaf/interior hashes, the level-wise merkle
 //! aggregation with hash-defined fan-out, salted file hash, range verification hash, and a
-//! decoder for the xorb chunk-frame stream.  Nothing here calls into merkledb / deduplication.
+//! decoder for the xorb chunk-frame stream, byte-grouping-4 split/regroup, and a parser/builder for
+//! both xorb footer layouts.  Nothing here calls into merkledb / deduplication / cas_object.
 
 pub type RH = [u8; 32];
 
@@ -179,8 +180,9 @@ pub struct RefFrame {
     pub data: Vec<u8>,
 }
 
-fn bg4_regroup(g: &[u8]) -> Vec<u8> {
-    // inverse of: split into 4 groups holding bytes i%4==0,1,2,3 (group k has ceil((n-k)/4) bytes)
+/// Inverse of [`bg4_split`]: group k (k = 0..3) holds the bytes at positions i with i % 4 == k,
+/// in order; group k has ceil((n-k)/4) bytes (0 when n <= k); the groups are concatenated.
+pub fn bg4_regroup(g: &[u8]) -> Vec<u8> {
     let n = g.len();
     let mut out = vec![0u8; n];
     let mut off = 0usize;
@@ -194,55 +196,307 @@ fn bg4_regroup(g: &[u8]) -> Vec<u8> {
     out
 }
 
-/// Decodes a concatenation of chunk frames: header = version(1) compressed_len(3 LE) scheme(1)
-/// uncompressed_len(3 LE); scheme 0 = stored, 1 = LZ4 frame, 2 = byte-grouping-4 then LZ4 frame.
-pub fn decode_frames(buf: &[u8]) -> Result<Vec<RefFrame>, String> {
-    let mut out = Vec::new();
-    let mut p = 0usize;
-    while p < buf.len() {
-        if buf.len() - p < 8 {
-            return Err(format!("truncated frame header at {p}"));
+/// Byte-grouping-4: concatenation of the four subsequences data[k], data[k+4], data[k+8], ... for k = 0..3.
+pub fn bg4_split(data: &[u8]) -> Vec<u8> {
+    let mut out = Vec::with_capacity(data.len());
+    for k in 0..4 {
+        let mut i = k;
+        while i < data.len() {
+            out.push(data[i]);
+            i += 4;
         }
-        let ver = buf[p];
-        let cl = u32::from_le_bytes([buf[p + 1], buf[p + 2], buf[p + 3], 0]) as usize;
-        let scheme = buf[p + 4];
-        let ul = u32::from_le_bytes([buf[p + 5], buf[p + 6], buf[p + 7], 0]) as usize;
-        if ver != 0 {
-            return Err(format!("frame version {ver} at {p}"));
-        }
-        p += 8;
-        if buf.len() - p < cl {
-            return Err(format!("truncated frame payload at {p}: need {cl}"));
-        }
-        let payload = &buf[p..p + cl];
-        p += cl;
-        let data = match scheme {
-            0 => payload.to_vec(),
-            1 | 2 => {
-                use std::io::Read;
-                let mut d = Vec::new();
-                lz4_flex::frame::FrameDecoder::new(payload)
-                    .read_to_end(&mut d)
-                    .map_err(|e| format!("lz4: {e}"))?;
-                if scheme == 2 {
-                    bg4_regroup(&d)
-                } else {
-                    d
-                }
-            },
-            s => return Err(format!("unknown scheme {s}")),
-        };
-        if data.len() != ul {
-            return Err(format!("frame length mismatch: header {ul}, decoded {}", data.len()));
-        }
-        out.push(RefFrame {
+    }
+    out
+}
+
+pub const FRAME_HEADER_LEN: usize = 8;
+
+/// Decodes the single chunk frame starting at `p`; returns the frame and the offset just after it.
+/// header = version(1) compressed_len(3 LE) scheme(1) uncompressed_len(3 LE); scheme 0 = stored,
+/// 1 = LZ4 frame, 2 = byte-grouping-4 then LZ4 frame.
+pub fn decode_one_frame(buf: &[u8], p: usize) -> Result<(RefFrame, usize), String> {
+    if buf.len() < p || buf.len() - p < FRAME_HEADER_LEN {
+        return Err(format!("truncated frame header at {p}"));
+    }
+    let ver = buf[p];
+    let cl = u32::from_le_bytes([buf[p + 1], buf[p + 2], buf[p + 3], 0]) as usize;
+    let scheme = buf[p + 4];
+    let ul = u32::from_le_bytes([buf[p + 5], buf[p + 6], buf[p + 7], 0]) as usize;
+    if ver != 0 {
+        return Err(format!("frame version {ver} at {p}"));
+    }
+    let mut p = p + FRAME_HEADER_LEN;
+    if buf.len() - p < cl {
+        return Err(format!("truncated frame payload at {p}: need {cl}"));
+    }
+    let payload = &buf[p..p + cl];
+    p += cl;
+    let data = match scheme {
+        0 => payload.to_vec(),
+        1 | 2 => {
+            use std::io::Read;
+            let mut d = Vec::new();
+            lz4_flex::frame::FrameDecoder::new(payload)
+                .read_to_end(&mut d)
+                .map_err(|e| format!("lz4: {e}"))?;
+            if scheme == 2 {
+                bg4_regroup(&d)
+            } else {
+                d
+            }
+        },
+        s => return Err(format!("unknown scheme {s}")),
+    };
+    if data.len() != ul {
+        return Err(format!("frame length mismatch: header {ul}, decoded {}", data.len()));
+    }
+    Ok((
+        RefFrame {
             scheme,
             compressed_len: cl,
             uncompressed_len: ul,
             data,
-        });
+        },
+        p,
+    ))
+}
+
+/// Decodes a concatenation of chunk frames (see [`decode_one_frame`]).
+pub fn decode_frames(buf: &[u8]) -> Result<Vec<RefFrame>, String> {
+    let mut out = Vec::new();
+    let mut p = 0usize;
+    while p < buf.len() {
+        let (f, q) = decode_one_frame(buf, p)?;
+        out.push(f);
+        p = q;
     }
     Ok(out)
+}
+
+pub const FOOTER_IDENT: &[u8; 7] = b"XETBLOB";
+pub const FOOTER_IDENT_HASHES: &[u8; 7] = b"XBLBHSH";
+pub const FOOTER_IDENT_BOUNDARIES: &[u8; 7] = b"XBLBBND";
+
+/// What follows the frames when a xorb is read front to back.
+#[derive(Debug, Clone, PartialEq, Eq)]
+pub enum StreamTail {
+    /// the byte string ends exactly at a frame boundary
+    NoFooter,
+    /// the 7-byte footer ident + version byte were found at `at`
+    Footer { at: usize, version: u8 },
+}
+
+/// Front-to-back view of a xorb: frames are decoded until the input ends at a frame boundary or
+/// the next 8 bytes start with the footer ident.
+pub fn parse_stream(buf: &[u8]) -> Result<(Vec<RefFrame>, Vec<usize>, StreamTail), String> {
+    let mut frames = Vec::new();
+    let mut ends = Vec::new();
+    let mut p = 0usize;
+    loop {
+        if p == buf.len() {
+            return Ok((frames, ends, StreamTail::NoFooter));
+        }
+        if buf.len() - p < 8 {
+            return Err(format!("{} stray bytes after the frames at {p}", buf.len() - p));
+        }
+        if &buf[p..p + 7] == FOOTER_IDENT {
+            return Ok((frames, ends, StreamTail::Footer { at: p, version: buf[p + 7] }));
+        }
+        let (f, q) = decode_one_frame(buf, p)?;
+        frames.push(f);
+        ends.push(q);
+        p = q;
+    }
+}
+
+/// A parsed xorb footer (either layout).
+#[derive(Debug, Clone, PartialEq, Eq)]
+pub struct RefFooter {
+    pub version: u8,
+    pub xorb_hash: RH,
+    pub num_chunks: u32,
+    pub chunk_hashes: Vec<RH>,
+    /// cumulative physical end offset of each frame
+    pub boundaries: Vec<u32>,
+    /// cumulative unpacked end offset of each chunk (layout 1 only)
+    pub unpacked: Option<Vec<u32>>,
+    /// info length (the footer without the 4-byte trailer)
+    pub info_len: usize,
+}
+
+struct Rd<'a> {
+    b: &'a [u8],
+    p: usize,
+}
+impl<'a> Rd<'a> {
+    fn take(&mut self, n: usize) -> Result<&'a [u8], String> {
+        if self.b.len() - self.p < n {
+            return Err(format!("footer truncated at {} (need {n})", self.p));
+        }
+        let s = &self.b[self.p..self.p + n];
+        self.p += n;
+        Ok(s)
+    }
+    fn u32(&mut self) -> Result<u32, String> {
+        Ok(u32::from_le_bytes(self.take(4)?.try_into().unwrap()))
+    }
+    fn u8(&mut self) -> Result<u8, String> {
+        Ok(self.take(1)?[0])
+    }
+    fn hash(&mut self) -> Result<RH, String> {
+        let mut h = [0u8; 32];
+        h.copy_from_slice(self.take(32)?);
+        Ok(h)
+    }
+}
+
+/// Parses `info` = the footer bytes WITHOUT the 4-byte length trailer; all of `info` must be consumed.
+/// Layout 0: ident(7) 0(1) xorb_hash(32) n(4) boundaries(4n) chunk_hashes(32n) reserved(16).
+/// Layout 1: ident(7) 1(1) xorb_hash(32) | "XBLBHSH"(7) 0(1) n(4) chunk_hashes(32n) |
+///           "XBLBBND"(7) 1(1) n(4) boundaries(4n) unpacked(4n) | n(4) hashes_section_offset_from_end(4)
+///           boundary_section_offset_from_end(4) reserved(16); the two offsets count bytes from the
+///           start of their section to the end of the info block.
+pub fn parse_footer_info(info: &[u8]) -> Result<RefFooter, String> {
+    let mut r = Rd { b: info, p: 0 };
+    if r.take(7)? != FOOTER_IDENT {
+        return Err("bad footer ident".into());
+    }
+    let version = r.u8()?;
+    let xorb_hash = r.hash()?;
+    let out = match version {
+        0 => {
+            let n = r.u32()?;
+            if (n as usize) > info.len() {
+                return Err(format!("chunk count {n} exceeds footer size"));
+            }
+            let mut boundaries = Vec::new();
+            for _ in 0..n {
+                boundaries.push(r.u32()?);
+            }
+            let mut chunk_hashes = Vec::new();
+            for _ in 0..n {
+                chunk_hashes.push(r.hash()?);
+            }
+            r.take(16)?;
+            RefFooter {
+                version,
+                xorb_hash,
+                num_chunks: n,
+                chunk_hashes,
+                boundaries,
+                unpacked: None,
+                info_len: info.len(),
+            }
+        },
+        1 => {
+            let hs = r.p;
+            if r.take(7)? != FOOTER_IDENT_HASHES {
+                return Err("bad hashes-section ident".into());
+            }
+            if r.u8()? != 0 {
+                return Err("bad hashes-section version".into());
+            }
+            let n = r.u32()?;
+            if (n as usize) > info.len() {
+                return Err(format!("chunk count {n} exceeds footer size"));
+            }
+            let mut chunk_hashes = Vec::new();
+            for _ in 0..n {
+                chunk_hashes.push(r.hash()?);
+            }
+            let bs = r.p;
+            if r.take(7)? != FOOTER_IDENT_BOUNDARIES {
+                return Err("bad boundaries-section ident".into());
+            }
+            if r.u8()? != 1 {
+                return Err("bad boundaries-section version".into());
+            }
+            if r.u32()? != n {
+                return Err("chunk counts differ (boundaries section)".into());
+            }
+            let mut boundaries = Vec::new();
+            for _ in 0..n {
+                boundaries.push(r.u32()?);
+            }
+            let mut unpacked = Vec::new();
+            for _ in 0..n {
+                unpacked.push(r.u32()?);
+            }
+            if r.u32()? != n {
+                return Err("chunk counts differ (trailer)".into());
+            }
+            let hoff = r.u32()? as usize;
+            let boff = r.u32()? as usize;
+            r.take(16)?;
+            if r.p - hs != hoff || r.p - bs != boff {
+                return Err("section offsets do not match the layout".into());
+            }
+            RefFooter {
+                version,
+                xorb_hash,
+                num_chunks: n,
+                chunk_hashes,
+                boundaries,
+                unpacked: Some(unpacked),
+                info_len: info.len(),
+            }
+        },
+        v => return Err(format!("unknown footer version {v}")),
+    };
+    if r.p != info.len() {
+        return Err(format!("{} unparsed bytes inside the info block", info.len() - r.p));
+    }
+    Ok(out)
+}
+
+/// Builds footer bytes INCLUDING the 4-byte length trailer.  `unpacked = None` builds layout 0.
+pub fn build_footer(xorb_hash: &RH, chunk_hashes: &[RH], boundaries: &[u32], unpacked: Option<&[u32]>) -> Vec<u8> {
+    let n = chunk_hashes.len() as u32;
+    let mut o = Vec::new();
+    o.extend_from_slice(FOOTER_IDENT);
+    match unpacked {
+        None => {
+            o.push(0);
+            o.extend_from_slice(xorb_hash);
+            o.extend_from_slice(&n.to_le_bytes());
+            for b in boundaries {
+                o.extend_from_slice(&b.to_le_bytes());
+            }
+            for h in chunk_hashes {
+                o.extend_from_slice(h);
+            }
+            o.extend_from_slice(&[0u8; 16]);
+        },
+        Some(unpacked) => {
+            o.push(1);
+            o.extend_from_slice(xorb_hash);
+            let hs = o.len();
+            o.extend_from_slice(FOOTER_IDENT_HASHES);
+            o.push(0);
+            o.extend_from_slice(&n.to_le_bytes());
+            for h in chunk_hashes {
+                o.extend_from_slice(h);
+            }
+            let bs = o.len();
+            o.extend_from_slice(FOOTER_IDENT_BOUNDARIES);
+            o.push(1);
+            o.extend_from_slice(&n.to_le_bytes());
+            for b in boundaries {
+                o.extend_from_slice(&b.to_le_bytes());
+            }
+            for u in unpacked {
+                o.extend_from_slice(&u.to_le_bytes());
+            }
+            o.extend_from_slice(&n.to_le_bytes());
+            let end = o.len() + 4 + 4 + 16;
+            o.extend_from_slice(&((end - hs) as u32).to_le_bytes());
+            o.extend_from_slice(&((end - bs) as u32).to_le_bytes());
+            o.extend_from_slice(&[0u8; 16]);
+        },
+    }
+    let il = o.len() as u32;
+    o.extend_from_slice(&il.to_le_bytes());
+    o
 }
 
 /// Splits a serialized xorb into (frame region, footer bytes) using the trailing u32 info length.
